@@ -2,7 +2,7 @@
    Statements only.  gen/MeshCfg.v is regenerated from /repo on every run. *)
 From Coq Require Import ZArith List Bool Arith Sorted.
 Import ListNotations.
-From FV.C08 Require Import Table Model.
+From FV.C09 Require Import Table AttrModel.
 From FV.C09 Require Import Model Proofs.
 From FV.C09.gen Require Import MeshCfg.
 
